@@ -332,8 +332,10 @@ fn range(r: &mut Rng, (lo, hi): (usize, usize)) -> usize { lo + r.below(hi - lo 
 /// awaited events are fired by some caller that cannot itself be blocked by the awaiting operation.
 pub fn generate(p: &Profile, r: &mut Rng) -> Program {
     let nq = range(r, p.nq);
-    let ncallers = range(r, p.callers);
+    let mut ncallers = range(r, p.callers);
     let mut pool = range(r, p.pool);
+    // with no pool thread a future only makes progress while no other context uses its object (C07): one context then
+    if pool == 0 && p.w_fd + p.w_fs + p.w_after + p.w_suspend > 0 { ncallers = 1; }
     let mut nev = 0;
     let mut callers: Vec<Vec<Op>> = vec![];
     let total = p.w_desync + p.w_sync + p.w_try + p.w_fd + p.w_fs + p.w_after + p.w_suspend + p.w_drop;
@@ -377,6 +379,7 @@ pub fn generate(p: &Profile, r: &mut Rng) -> Program {
             else { k -= p.w_after;
             if k < p.w_suspend { if has_resumer { op = Op::Resume; has_resumer = false; } else { op = Op::Suspend(q); has_resumer = true; } }
             else { op = Op::DropObj(q); } } } } } } }
+            let op = if has_resumer && !matches!(op, Op::Suspend(_)) { match op { Op::Sync(q, b) => Op::Desync(q, b), Op::FutDesync(q, b, _) => Op::FutDesync(q, b, Mode::Detach), o => o } } else { op };
             ops.push(op);
         }
         if has_resumer { ops.push(if r.chance(1, 2) { Op::Resume } else { Op::DropResumer }); }
